@@ -7,7 +7,8 @@ The functions convert a string to its *elements* (the pieces between `/`),
 work on element lists the way Go's byte loops do element by element, and convert
 back:
 
-* `Clean` (internal/filepathlite/path.go): one pass over the elements; the
+* `Clean` (internal/filepathlite/path.go): one pass over the elements (the byte loop itself is
+  `cleanBytes` further down, proved equal); the
   output buffer is represented by `CState`: `k` = number of `..` elements below
   Go's `dotdot` index (the part that must not be backtracked), `names` = the
   elements written above it. Empty and `.` elements are dropped, `..` removes
@@ -149,6 +150,109 @@ deriving DecidableEq, Repr
 def resolve (root p : Str) : Outcome :=
   let importPath := cleanStr (joinStr root p)
   match isSubpath root importPath with
+  | (_, false) => .relError
+  | (false, true) => .rejected
+  | (true, true) => .opened importPath
+
+/-! ## The same functions byte by byte, the way Go's loops run
+
+`cleanBytes` follows the loop of `Clean` in internal/filepathlite/path.go index by index: `rest` is
+`path[r:]`, `rev` the written part `out.buf[0:w]` of the lazybuf (last byte first), `dd` the
+`dotdot` index; `..` backtracks byte by byte to the last separator (`backtrack`). `relBytes`
+follows `Rel` in path/filepath/path.go: the index walk `b0/bi/t0/ti` over the two cleaned strings
+(`relWalk`), `bytealg.CountString` of the separators left in the base, the assembly of the result.
+`resolveBytes` composes them exactly as util/import.go does. Unix only: no volume names,
+`sameWord` is equality, `IsPathSeparator(c)` is `c == '/'`. The loops are fuel-indexed with fuel
+that is never exhausted (length of the input + 1).
+Lemmas/PathBytes.lean proves `cleanBytes = cleanStr`, `relBytes = relStr`, `resolveBytes = resolve`:
+the element-list functions above are not an abstraction to be trusted but a proved description
+of the byte loops. -/
+
+/-- `out.w--; for out.w > dotdot && !IsPathSeparator(out.index(out.w)) { out.w-- }` on the reversed
+    buffer: `c` is the byte at index `w`, the list the bytes below it (last first) -/
+def backtrackLoop (dd : Nat) (c : Nat) : List Nat → List Nat
+  | [] => []
+  | c' :: rest => if (c' :: rest).length > dd ∧ c ≠ 47 then backtrackLoop dd c' rest else c' :: rest
+
+def backtrack (dd : Nat) : List Nat → List Nat
+  | [] => []
+  | c :: rest => backtrackLoop dd c rest
+
+/-- the bytes of the element starting here, and what follows it -/
+def takeElem : List Nat → List Nat × List Nat
+  | [] => ([], [])
+  | c :: cs => if c = 47 then ([], c :: cs) else ((takeElem cs).1.cons c, (takeElem cs).2)
+
+/-- the loop of `Clean`: `rest` = `path[r:]`, `rev` = `out.buf[0:w]` reversed, `dd` = `dotdot` -/
+def cleanLoop (rooted : Bool) : Nat → List Nat → List Nat → Nat → List Nat
+  | 0, _, rev, _ => rev
+  | fuel + 1, rest, rev, dd =>
+    match rest with
+    | [] => rev
+    | c :: t =>
+      if c = 47 then cleanLoop rooted fuel t rev dd
+      else if c = 46 ∧ (t = [] ∨ t.head? = some 47) then cleanLoop rooted fuel t rev dd
+      else if c = 46 ∧ t.head? = some 46 ∧ (t.tail = [] ∨ t.tail.head? = some 47) then
+        if rev.length > dd then cleanLoop rooted fuel t.tail (backtrack dd rev) dd
+        else if !rooted then
+          let rev' := 46 :: 46 :: (if rev.length > 0 then 47 :: rev else rev)
+          cleanLoop rooted fuel t.tail rev' rev'.length
+        else cleanLoop rooted fuel t.tail rev dd
+      else
+        let rev' := if (rooted && rev.length != 1) || (!rooted && rev.length != 0) then 47 :: rev else rev
+        let e := takeElem (c :: t)
+        cleanLoop rooted fuel e.2 (e.1.reverse ++ rev') dd
+
+/-- `filepath.Clean`, byte by byte -/
+def cleanBytes (path : Str) : Str :=
+  if path = [] then dot
+  else
+    let rooted := isRooted path
+    let out := if rooted then cleanLoop true (path.length + 1) (path.drop 1) [47] 1
+               else cleanLoop false (path.length + 1) path [] 0
+    if out = [] then dot else out.reverse
+
+
+/-- the element-wise walk of `Rel` on the byte strings: `b` = `base[b0:]`, `t` = `targ[t0:]`; result at the
+    break: `base[b0:]`, the base element `base[b0:bi]`, `targ[t0:]` -/
+def relWalk : Nat → List Nat → List Nat → List Nat × List Nat × List Nat
+  | 0, b, t => (b, (takeElem b).1, t)
+  | fuel + 1, b, t =>
+    if (takeElem t).1 ≠ (takeElem b).1 then (b, (takeElem b).1, t)
+    else relWalk fuel ((takeElem b).2.drop 1) ((takeElem t).2.drop 1)   -- `if bi < bl { bi++ }`, same for ti
+
+/-- `filepath.Rel`, byte by byte (Unix: no volume names, `sameWord` is equality) -/
+def relBytes (basepath targpath : Str) : Option Str :=
+  let base := cleanBytes basepath
+  let targ := cleanBytes targpath
+  if targ = base then some dot
+  else
+    let base := if base = dot then [] else base
+    if (base.head? == some 47) != (targ.head? == some 47) then none
+    else
+      let w := relWalk (base.length + targ.length + 1) base targ
+      if w.2.1 = dotdot then none
+      else if w.1 ≠ [] then
+        some (dotdot ++ (List.replicate (w.1.count 47) [47, 46, 46]).flatten ++ (if w.2.2 ≠ [] then 47 :: w.2.2 else []))
+      else some w.2.2
+
+
+/-- `filepath.Join(a, b)` with the byte-level `Clean` -/
+def joinBytes (a b : Str) : Str :=
+  if a ≠ [] then cleanBytes (a ++ 47 :: b)
+  else if b ≠ [] then cleanBytes b
+  else []
+
+/-- `isSubpath(root, sub)` over the byte-level `Rel` -/
+def isSubpathBytes (root sub : Str) : Bool × Bool :=
+  match relBytes root sub with
+  | none => (false, false)
+  | some rel => (!hasUpPrefix rel && rel != dotdot, true)
+
+/-- `FileImportLocator{Root: root}.Resolve(p)` over the byte-level functions -/
+def resolveBytes (root p : Str) : Outcome :=
+  let importPath := cleanBytes (joinBytes root p)
+  match isSubpathBytes root importPath with
   | (_, false) => .relError
   | (false, true) => .rejected
   | (true, true) => .opened importPath
